@@ -10,7 +10,7 @@ From stdpp Require Import gmap.
 From Coq Require Import ZArith List.
 From V Require Import Base.Res Sched.LedgerModel Sched.StmtModel Sched.GangModel Sched.CycleModel
                       Sched.LedgerInvP Sched.LedgerCodec Sched.CycleCodec
-                      Sched.QueueLemmasBase Sched.QueueLemmasReach Sched.QueueLemmas Sched.QueueLemmasEx
+                      Sched.LedgerLemmasSess Sched.QueueLemmasBase Sched.QueueLemmasReach Sched.QueueLemmas Sched.QueueLemmasHeld Sched.QueueLemmasEx
                       C03.CapacityModel C03.CapacityLemmas C03.ReclaimLaw C03.AliasModel C03.ReclaimModel.
 From V Require C03.EnqueueLaw.
 Import ListNotations.
@@ -45,15 +45,6 @@ Theorem C03_events_balance_run : forall eps (w : world) (ops : list cop),
 Proof. exact events_balance_run. Qed.
 Print Assumptions C03_events_balance_run.
 
-(* what [balanced] says, spelled out *)
-Theorem C03_balanced_unfold : forall s s' evs,
-  balanced s s' evs <->
-  hlog s' = evs ++ hlog s /\
-  forall q d,
-    zsum (ev_signed s q d) evs <= amt (share_of s' q) d - amt (share_of s q) d <= zsum (ev_pos s q d) evs /\
-    (d = DCpu \/ d = DMem -> amt (share_of s' q) d - amt (share_of s q) d = zsum (ev_signed s q d) evs).
-Proof. exact balanced_unfold. Qed.
-Print Assumptions C03_balanced_unfold.
 
 (* A.3 (main)  for every world, every list of oracle choices (no hypothesis on the verdicts: a
    refused or malformed choice places nothing), after the run -- hence after every step, see the
@@ -72,30 +63,49 @@ Theorem C03_queue_cap_invariant : forall eps (w : world) (ops : list cop),
 Proof. exact queue_cap_invariant. Qed.
 Print Assumptions C03_queue_cap_invariant.
 
-Theorem C03_queue_cap_invariant_every_step : forall eps (w : world) (ops : list cop) (n : nat),
-  world_ok w ->
-  let s' := w_sess (CycleModel.run eps w (take n ops)) in
-  forall evs, hlog s' = evs ++ hlog (w_sess w) ->
-  forall e t q qa,
-    e ∈ evs -> he_alloc e = true -> heap s' !! he_task e = Some t -> queue_of s' t = Some q ->
-    w_queues w !! q = Some qa -> q_has_plugin qa = true ->
-    (t_best_effort t = false -> q_open qa = true) /\
-    forall d, requested (t_req t) d -> amt (share_of s' q) d <= amt (q_limit qa) d.
-Proof. exact queue_cap_invariant_every_step. Qed.
-Print Assumptions C03_queue_cap_invariant_every_step.
+(* ---- the property in its own words (audit W1): the queue's PLACED PODS, not a ledger ----
+   held s q d = sum of the requests, in dimension d, of the tasks of the heap whose job belongs to
+   queue q and whose status is Allocated / Pipelined / Binding / Bound / Running.
+   world_ok_held w = world_ok w, the bookkeeping invariant ledger_inv of LedgerInvP.v with C07's two
+   side conditions (sess_wf, saved_ok), statements handed out fresh, and  cover : the handler
+   ledger the vote reads is at least [held] when the session opens (OnSessionOpen sums exactly the
+   pods in an allocated status).  [cover] is then an INVARIANT of every run: *)
+Theorem C03_ledger_covers_placed : forall eps (w : world) (ops : list cop),
+  world_ok_held w ->
+  forall q d, held (w_sess (CycleModel.run eps w ops)) q d <= amt (share_of (w_sess (CycleModel.run eps w ops)) q) d.
+Proof. exact ledger_covers_placed. Qed.
+Print Assumptions C03_ledger_covers_placed.
 
-(* the same for the runs the code can produce (all verdicts VOk) *)
-Theorem C03_queue_cap_invariant_ok_runs : forall eps (w : world) (ops : list cop),
-  world_ok w -> Forall (fun v => v = VOk) (verdicts eps w ops) ->
+(* MAIN, allocate / backfill skeleton: after every run (hence every prefix: a prefix of a choice
+   list is a choice list), for every task placed in this cycle for a queue with a plugin, the queue
+   is Open unless the task is best-effort, and in every dimension the task requests the requests of
+   the queue's placed pods are within the queue's limit *)
+Theorem C03_placed_pods_within_limit : forall eps (w : world) (ops : list cop),
+  world_ok_held w ->
   let s' := w_sess (CycleModel.run eps w ops) in
   forall evs, hlog s' = evs ++ hlog (w_sess w) ->
   forall e t q qa,
     e ∈ evs -> he_alloc e = true -> heap s' !! he_task e = Some t -> queue_of s' t = Some q ->
     w_queues w !! q = Some qa -> q_has_plugin qa = true ->
     (t_best_effort t = false -> q_open qa = true) /\
-    forall d, requested (t_req t) d -> amt (share_of s' q) d <= amt (q_limit qa) d.
-Proof. exact queue_cap_invariant_ok_runs. Qed.
-Print Assumptions C03_queue_cap_invariant_ok_runs.
+    forall d, requested (t_req t) d -> held s' q d <= amt (q_limit qa) d.
+Proof. exact placed_pods_within_limit. Qed.
+Print Assumptions C03_placed_pods_within_limit.
+
+(* the well-formedness survives the run: the theorem applies to the next cycle of the session *)
+Theorem C03_world_ok_held_run : forall eps (w : world) (ops : list cop),
+  world_ok_held w -> ledger_inv (w_sess (CycleModel.run eps w ops)) /\ fresh (CycleModel.run eps w ops) /\
+                     cover (w_sess (CycleModel.run eps w ops)).
+Proof. exact world_ok_held_run. Qed.
+Print Assumptions C03_world_ok_held_run.
+
+(* a session in which no pod holds quota yet and whose ledger is empty is covered *)
+Theorem C03_cover_no_holding : forall s,
+  hshare s = ∅ -> (forall i t, heap s !! i = Some t -> holds (t_status t) = false) -> cover s.
+Proof. exact cover_no_holding. Qed.
+Print Assumptions C03_cover_no_holding.
+
+
 
 (* with limit <= capability (C12: deserved <= max(guarantee, realCapability), realCapability <=
    capability; the admission webhook enforces guarantee <= deserved <= capability): never above
@@ -112,12 +122,6 @@ Theorem C03_never_above_capability : forall eps (w : world) (ops : list cop) (ca
 Proof. exact queue_cap_under_capability. Qed.
 Print Assumptions C03_never_above_capability.
 
-(* the well-formedness hypothesis, spelled out, and its decidable form *)
-Theorem C03_world_ok_unfold : forall w,
-  world_ok w <->
-  heap_ok (heap (w_sess w)) /\ be_empty (heap (w_sess w)) /\ no_evict (w_sess w).
-Proof. exact world_ok_unfold. Qed.
-Print Assumptions C03_world_ok_unfold.
 
 Theorem C03_world_okb_sound : forall w, world_okb w = true -> world_ok w.
 Proof. exact world_okb_ok. Qed.
@@ -355,3 +359,74 @@ Theorem C03_reclaim_skip_vote_refuted :
     qr_realcap ra = Some c /\ amt c DCpu < amt (qr_alloc ra) DCpu + amt req DCpu.
 Proof. exact reclaim_skip_vote_refuted. Qed.
 Print Assumptions C03_reclaim_skip_vote_refuted.
+
+(* ================= audit round ================= *)
+
+(* W1 non-vacuity: a session that starts with a NON-EMPTY ledger and a pod holding quota (the world
+   after the first cycle; its well-formedness is derived from the invariant theorems), a second
+   cycle refused at 19200 > 16000, and the reviewer's counter-world (same session, ledger
+   forgotten): accepted by the old hypothesis world_ok, rejected by world_ok_held *)
+Example C03_ex_world_ok_held : world_ok_held ex_w.
+Proof. exact ex_world_ok_held. Qed.
+Example C03_ex_w1_ok_held : world_ok_held ex_w1.
+Proof. exact ex_w1_ok_held. Qed.
+Example C03_ex_w1_ledger : held (w_sess ex_w1) 1 DCpu = 9600 /\ amt (share_of (w_sess ex_w1) 1) DCpu = 9600.
+Proof. exact ex_w1_ledger. Qed.
+Example C03_ex_second_cycle :
+  verdicts 2 ex_w1 ops4 = [VQueueRefuses 2] /\ held (w_sess (CycleModel.run 2 ex_w1 ops4)) 1 DCpu = 9600.
+Proof. exact ex_second_cycle. Qed.
+Example C03_ex_forgotten_ledger_rejected :
+  world_ok ex_w1_forgotten /\ (~ cover (w_sess ex_w1_forgotten)) /\
+  (verdicts 2 ex_w1_forgotten ops4 = [VOk]) /\
+  (held (w_sess (CycleModel.run 2 ex_w1_forgotten ops4)) 1 DCpu = 19200).
+Proof. exact ex_forgotten_ledger_rejected. Qed.
+Example C03_ex_placed_within_limit : held (w_sess (CycleModel.run 2 ex_w ops1)) 1 DCpu <= 16000.
+Proof. exact ex_placed_within_limit. Qed.
+Print Assumptions C03_ex_placed_within_limit.
+
+(* W7: backfill asks no vote: a best-effort pod is placed for a Closed queue *)
+Example C03_ex_backfill_places_in_closed_queue :
+  let s' := w_sess (CycleModel.run 2 ex_w_be [CBackfill 1 1]) in
+  verdicts 2 ex_w_be [CBackfill 1 1] = [VOk] /\
+  (exists t, heap s' !! 1%positive = Some t /\ t_best_effort t = true /\ t_status t = Binding /\
+             queue_of s' t = Some 2%positive) /\
+  (exists qa, w_queues ex_w_be !! 2%positive = Some qa /\ q_open qa = false).
+Proof. exact ex_backfill_places_in_closed_queue. Qed.
+
+(* W8: the literal enqueue clause ("together with what the queue has already allocated") is false
+   of both plugins: the elastic part of the allocation is not counted *)
+Theorem C03_enqueue_literal_refuted :
+  exists qs q m r c,
+    prop_enqueueable qs q (Some m) = Permit /\ cap_enqueueable false true qs q (Some m) = Permit /\
+    qs !! q = Some r /\ qr_realcap r = Some c /\
+    amt c DCpu < amt m DCpu + amt (qr_alloc r) DCpu + amt (qr_inqueue r) DCpu.
+Proof. exact enqueue_literal_refuted. Qed.
+Print Assumptions C03_enqueue_literal_refuted.
+
+(* W12: what law 110 means, as a Prop *)
+Theorem C03_law_alloc_one_sound : forall k qs reserved q req,
+  law_alloc_one k qs reserved q req true = true ->
+  exists r, qs !! q = Some r /\ qr_open r = true /\ leaf_ok k r = true /\
+    forall a, a ∈ chain_of k r q ->
+      exists ra c, qs !! a = Some ra /\ limit_of k ra = Some c /\
+        forall d, requested req d -> amt (qr_alloc ra) d + amt (reserved a) d + amt req d <= amt c d.
+Proof. exact law_alloc_one_sound. Qed.
+Print Assumptions C03_law_alloc_one_sound.
+
+(* W3: the construction of the ancestor lists aliased too (repaired by /repo 675735a): registering
+   a child of c1 rewrites the parent recorded for g, child of c2; the repaired construction records
+   the parent's chain followed by the parent and touches no other queue *)
+Theorem C03_construction_aliasing_refuted :
+  ancestors witness_table g = [qroot; q1; q2; q3; q4; q5; c2] /\
+  ancestors (add_queue witness_table hq (Some c1)) g = [qroot; q1; q2; q3; q4; q5; c1].
+Proof. exact construction_aliasing_refuted. Qed.
+Print Assumptions C03_construction_aliasing_refuted.
+
+Theorem C03_add_queue_fixed_spec : forall (t : table) (q p : positive),
+  table_wf t ->
+  let t' := add_queue_fixed t q (Some p) in
+  ancestors t' q = ancestors t p ++ [p] /\
+  (forall q', q' <> q -> ancestors t' q' = ancestors t q') /\
+  table_wf t'.
+Proof. exact add_queue_fixed_spec. Qed.
+Print Assumptions C03_add_queue_fixed_spec.
